@@ -527,8 +527,26 @@ pub fn parse_inline_conditional(
     }
 
     let inner = &trimmed[1..trimmed.len() - 1];
-    let (condition, branch) = match inner.split_once(':') {
-        Some(parts) => parts,
+    // the colon of a conditional stands at the top level of the braces and before any `|`
+    // (`{a {b:c}|d}` is a sequence whose first element holds a conditional)
+    let mut depth = 0usize;
+    let mut in_string = false;
+    let mut colon = None;
+    for (index, ch) in inner.char_indices() {
+        match ch {
+            '"' => in_string = !in_string,
+            '{' if !in_string => depth += 1,
+            '}' if !in_string => depth = depth.saturating_sub(1),
+            '|' if !in_string && depth == 0 => break,
+            ':' if !in_string && depth == 0 => {
+                colon = Some(index);
+                break;
+            }
+            _ => {}
+        }
+    }
+    let (condition, branch) = match colon {
+        Some(index) => (&inner[..index], &inner[index + 1..]),
         None => return Ok(None),
     };
 
